@@ -160,11 +160,29 @@ Definition in_callout (k : list frame) : bool :=
    the root queue popping bottom b *)
 Inductive call := CAsync (l : Z) (qos : Z) | CWorker (b : Z) (floor : Z).
 
+(* the qos plumbing of a push: _dispatch_queue_push_qos, then (in _dispatch_queue_wakeup) _dispatch_queue_wakeup_qos *)
+Definition push_qos_of (prio q : Z) : Z := if prio <? q then q else 0.
+Definition wakeup_qos_of (prio fb q : Z) : Z := Z.max (if q =? 0 then fb else q) prio.
+
+(* for the correspondence check (lib/props/c03_hlane.py): the word the model writes at a program point, given the old
+   word and what the thread knows there; -1 = the model does not write at this point for this old word *)
+Definition OWNED := SERIAL_OWNED + ENQUEUED.
+Definition outcome_new (o : rmw_outcome) : Z := match o with Commit new _ => new | _ => -1 end.
+Definition word_step (code a b c d old : Z) : Z :=
+  match code with
+  | 1 => match w_lock a b old with Commit new owned => if owned =? OWNED then new else -3 | _ => -1 end   (* a = tid, b = floor *)
+  | 2 => outcome_new (w_unlock OWNED old)
+  | 3 => w_xor old
+  | 4 => outcome_new (w_wake (wakeup_qos_of a b (push_qos_of a c)) (0 <? d) old)     (* a = prio, b = fallback, c = qos pushed, d = MAKE_DIRTY *)
+  | 5 => outcome_new (w_finish OWNED old)
+  | _ => -2
+  end.
+
 Section Model.
   Variable F : forest.
 
-  Definition push_qos (l q : Z) : Z := if prio F l <? q then q else 0.                           (* _dispatch_queue_push_qos *)
-  Definition wakeup_qos (l q : Z) : Z := Z.max (if q =? 0 then fallback F l else q) (prio F l).   (* _dispatch_queue_wakeup_qos *)
+  Definition push_qos (l q : Z) : Z := push_qos_of (prio F l) q.
+  Definition wakeup_qos (l q : Z) : Z := wakeup_qos_of (prio F l) (fallback F l) q.
 
   Definition init_state : gst :=
     {| st := fun l => Z.shiftl (4096 - 1) 41 + 68719476736 * rolebits F l; lst := fun _ => []; rootq := fun _ => 0;
